@@ -266,6 +266,22 @@ EXTRA3 = {
 for _p, _t in EXTRA3.items():
     CLAIMS[_p]["text"] += _t
 
+EXTRA4 = {
+    "C03": " Composed with spec/AuthResponse.tla (rule C03.response.target): after broken form_post responses of ANOTHER client, the page's first form posts to this request's URI.",
+    "C07": " Withdraw replaces the registration record (a router that remembers clients is found out).",
+    "C08": " The storage wraps op.ErrInvalidRefreshToken with context.",
+    "C10": " Flow exchangeJWT (token exchange by a client with JWT access tokens).",
+    "C12": " Time form farFuture (253402300799).",
+    "C13": " KeyRotation: a JWKS member of unknown key type (skipped; what follows it stays).",
+    "C16": " Form pathNoSlash (UserFormPath without leading slash).",
+    "C17": " StartLogin argument q: hostile query parameters on the link to the login URL.",
+    "C18": " Native client cn with a loopback post-logout URI; the same path on a foreign host.",
+    "C19": " Probe C19.pkce.enforced (private_key_jwt client, S256 challenge, wrong / no verifier).",
+    "C20": " Cell sharedIssuerFuncProvider.issuer (providers built from one op.IssuerFromHost value).",
+}
+for _p, _t in EXTRA4.items():
+    CLAIMS[_p]["text"] += _t
+
 NOT_APPLICABLE = {}
 
 
